@@ -48,6 +48,10 @@ Programs ==
      \* a later invalidate_all and a maintenance run that finds the cache drained
      iasy   |-> [cfg |-> Cf(2, None, None, FALSE),
                  progs |-> <<<<I(1,1,1)>>, <<G(1), ADV(1), XA, SY, G(1), SY>>>>],
+     \* an invalidate_all that is still under way (if it does more than one step) while another
+     \* thread inserts and completes a later invalidate_all: the later call wins
+     xaxa   |-> [cfg |-> Cf(2, None, None, FALSE),
+                 progs |-> <<<<XA, G(1)>>, <<ADV(1), I(2,2,1), ADV(1), XA, G(1)>>>>],
      farw   |-> [cfg |-> Cf(1, None, None, FALSE),
                  progs |-> <<<<I(1,1,1), SY, ADV(1), I(1,3,2), X(1), G(2)>>, <<G(2), SY, G(2)>>>>],
      farx   |-> [cfg |-> Cf(2, 1, None, FALSE),
